@@ -9,8 +9,8 @@ manual = {}
 mp = os.path.join(V, 'mutants', 'EXPECT.manual.json')
 if os.path.exists(mp):
     manual = json.load(open(mp))
-print('| change | what it does | caught by (first instance) |')
-print('|---|---|---|')
+import sys
+lines = ['| change | what it does | caught by (first instance) |', '|---|---|---|']
 def key(n):
     d, m = n.split('/')
     return (0 if d == 'mutants' else 1, m)
@@ -29,4 +29,15 @@ for name in sorted(res, key=key):
         k = fired[pid][0].replace('key:', '').strip()
         k = re.sub(r'\|', ' / ', k)[:100]
         cells.append('%s `%s`' % (pid, k))
-    print('| %s | %s | %s |' % (name.split('/')[1], what.replace('|', '/'), '; '.join(cells) if cells else '**missed**'))
+    lines.append('| %s | %s | %s |' % (name.split('/')[1], what.replace('|', '/'), '; '.join(cells) if cells else '**missed**'))
+
+if '--write' in sys.argv:
+    dp = os.path.join(V, 'DESIGN.md')
+    d = open(dp).read()
+    a = d.index('<!-- MATRIX BEGIN')
+    a = d.index('\n', a) + 1
+    b = d.index('<!-- MATRIX END -->')
+    open(dp, 'w').write(d[:a] + '\n'.join(lines) + '\n' + d[b:])
+    print('DESIGN.md matrix rewritten: %d rows' % (len(lines) - 2))
+else:
+    print('\n'.join(lines))
